@@ -520,12 +520,29 @@ def oracle(case):
             def fn(req):
                 res["args"] = check_accessors(req.args, ps, keep, "args")
                 res["form"] = check_accessors(req.form, ps, keep, "form") if body else None
+                # the handler owns what it was handed: it may sort, extend or empty the lists it got
+                for f in (req.args, req.form):
+                    for k in list(f.keys()):
+                        for v in (f[k] if isinstance(f, dict) else None, f.getlist(k)):
+                            if isinstance(v, list):
+                                v.reverse()
+                                v.append("verif-extra")
                 return None
+            ctype = env.get("CONTENT_TYPE")
             status, ran, _, _ = call(get_app(**cfg), env, fn)
             if not ran:
                 bad = "the endpoint did not run (status %d) for query %r" % (status, qs)
             else:
                 bad = res["args"] or res["form"]
+            if not bad:
+                # the same request once more: what an earlier handler did with its values must not show
+                env2 = environ(method, qs, body, ctype)
+                status, ran, _, _ = call(get_app(**cfg), env2, fn)
+                if not ran:
+                    bad = "the endpoint did not run (status %d) for the repeated query %r" % (status, qs)
+                elif res["args"] or res["form"]:
+                    bad = "second identical request, after the first handler changed the lists it was given: " + \
+                        (res["args"] or res["form"])
             if not bad and env["wsgi.input"].pos > len(body):
                 bad = "%d bytes taken from wsgi.input, Content-Length %d" % (env["wsgi.input"].pos, len(body))
             if bad:
